@@ -157,6 +157,9 @@ func runC08(c C08Case) (v *Violation, f c08Features, discard string) {
 			// a request that the first function's run declined (blocked session) is not saved:
 			// the engine's objects then need not equal the stored session
 			saved := !(c.App.Cfg.First != nil && !st.Cont)
+			if !inputAccepted(string(in)) && st.After == nil {
+				continue // a refused request before the session exists: nothing is stored, nothing to load
+			}
 			if bad := snapshotRoundTrip(s, saved); bad != nil {
 				bad.Msg = fmt.Sprintf("after request %d (input %s): %s", i, describeVal(string(in)), bad.Msg)
 				return bad, f, ""
